@@ -2109,9 +2109,11 @@ class ForAll(QuantifiedConditional):
         return values_that_satisfy_condition, values_that_do_not
 
     def evaluate_condition(self, sources: Dict[int, HashedValue]) -> bool:
-        for condition_val in self.condition._evaluate__(sources, parent=self):
-            return condition_val.is_true
-        return False
+        # a disjunction yields a result per side: the condition holds if one of them is true
+        return any(
+            condition_val.is_true
+            for condition_val in self.condition._evaluate__(sources, parent=self)
+        )
 
     def _invert_(self):
         return Exists(self.variable, self.condition._invert_())
